@@ -297,7 +297,7 @@ fn run_case(rep: &Report, acc: &mut Acc, c: &Case) {
 
 pub fn run(tier: Tier) -> i32 {
     let rep = Report::new("C01", tier);
-    rep.set_rule("lattice: label kind x row (re-use on/off, after the same label with re-use on/off, after another label followed by failed encap_ext/encap calls with this label, after a complete packet with this label interleaved inside another PDU's fragment train, after 1 + k packets with this label under a limit of m consecutive re-use labels for (m,k) in {(1,1),(2,1),(2,2),(1,2)}, after this label, re-use off, another label or broadcast, re-use on again, after this label followed by rejected continuation packets of unknown ids on the receiver side, after this label followed by another label sent through encap_ext as a complete packet or as a first fragment) x PDU length (every length 0..=4100) x buffer length relative to the exact packet size and beyond 4097 x protocol type x storage size >= PDU x content pattern, all contents for lengths 0..=2 (0..=1 in quick); each cell = real encap + real decap of exactly the reported bytes; distinct = (status, label kind, row, regime)");
+    rep.set_rule("lattice: label kind x row (re-use on/off, after the same label with re-use on/off, after another label followed by failed encap_ext/encap calls with this label, after a complete packet with this label interleaved inside another PDU's fragment train, after 1 + k packets with this label under a limit of m consecutive re-use labels for (m,k) in {(1,1),(2,1),(2,2),(1,2)}, after this label, re-use off, another label or broadcast, re-use on again, after this label followed by rejected continuation packets of unknown ids on the receiver side, after this label followed by another label sent through encap_ext as a complete packet or as a first fragment) x PDU length (every length 0..=4100) x buffer length relative to the exact packet size and beyond 4097 x protocol type x storage size >= PDU (exact, +1, +7, 4096, and 65536 / 65535 + PDU length / 131072 whose lengths do not fit 16 bits) x content pattern, all contents for lengths 0..=2 (0..=1 in quick); each cell = real encap + real decap of exactly the reported bytes; distinct = (status, label kind, row, regime)");
     rep.assume("payload contents beyond 2 bytes are represented by four patterns (position tag, zeros, ones, second tag)");
     let labels = [L6A, L3A, Lbl::Bcast, L6B, L3B, L3Z];
     let ps: Vec<usize> = (0..=4100).collect();
@@ -317,7 +317,7 @@ pub fn run(tier: Tier) -> i32 {
                 bl.sort();
                 bl.dedup();
                 for (bi, &b) in bl.iter().enumerate() {
-                    let storages: Vec<usize> = if p <= 8 || tier.thorough() { vec![p, p + 1, p + 7, 4096, 70000] } else { vec![[p, p + 1, p + 7, 4096][(p + bi + ri) % 4]] };
+                    let storages: Vec<usize> = if p <= 8 || tier.thorough() { vec![p, p + 1, p + 7, 4096, 70000, 65536, 65536 + p.saturating_sub(1), 131072] } else { vec![[p, p + 1, p + 7, 4096, p, p + 1, p + 7, 4096, p, p + 1, 65536, 65536 + p.saturating_sub(1)][(p + bi + ri) % 12]] };
                     for st in storages {
                         let pat = ((p + bi + ri) % 4) as u8;
                         let content = pdu(p, pat);
